@@ -420,17 +420,43 @@ def wrap_free(R, rule, fn, inline=(), roots=('+',), known=None):
     where = R.where(fn)
     found = {}
     nterms = 0
+    def probe(c):
+        """the other way to be safe from a wrap: compute the 32-bit sum and compare the result with one of its addends
+        (`sum < addr` holds exactly when addr + span wrapped, both being below 2^32) -> ('nowrap' | 'wrapped', sum)"""
+        if c[0] != 'cmp':
+            return None
+        for S, other, flip in ((strip_cast(c[2]), strip_cast(c[3]), False), (strip_cast(c[3]), strip_cast(c[2]), True)):
+            if S[0] != '+' or len(S) != 3 or S not in eng.optype:
+                continue
+            qt = eng.optype[S].replace('const ', '').strip()
+            if qt not in eng.INT_MAX_OF or not qt.startswith('unsigned') or eng.INT_MAX_OF[qt] != (1 << 32) - 1:
+                continue
+            if other not in (strip_cast(S[1]), strip_cast(S[2])):
+                continue
+            rel = c[1] if not flip else {'<': '>', '<=': '>=', '>': '<', '>=': '<=', '==': '==', '!=': '!='}[c[1]]
+            if rel in ('>=', '>'):
+                return ('nowrap', S)
+            if rel == '<':
+                return ('wrapped', S)
+        return None
+
     for p in ps:
         conds = list(p.cond_terms())
-        terms = list(conds)
+        probes = [(c, probe(c)) for c in conds]
+        extra = []
+        for c, pr in probes:
+            if pr is not None and pr[0] == 'nowrap':
+                extra.append(_sym.linearize(pr[1][1]) + _sym.linearize(pr[1][2]) - ((1 << 32) - 1))
+        # a probe is no use of the sum's value: what it compares is the wrapped result on purpose
+        terms = [c for c, pr in probes if pr is None]
         for e in p.effects:
             terms += [a for a in e.args if isinstance(a, tuple)]
         if p.ret is not None:
             terms.append(p.ret)
         flagged = set()
         for _ in range(4):
-            usable = [c for c in conds if not any(_sym.contains(c, f) for f in flagged)]
-            facts = eng.strict_facts(usable)
+            usable = [c for c, pr in probes if pr is None and not any(_sym.contains(c, f) for f in flagged)]
+            facts = eng.strict_facts(usable) + extra
             w = eng.narrow_wraps(terms, facts, maximal=True, wide_diffs=True)
             new = {t for t, qt, why in w if t[0] in roots or t[0] == '-' or any(x[0] == '+' and x in eng.optype for x in _sym.subterms(t))}
             # narrowing conversions of sums
